@@ -152,6 +152,49 @@ def dmat(A, W, tol_scale=1.0):
     return [[int(i), int(j), int(D[i, j])] for i, j in idx[:6]], int(len(idx))
 
 
+# ----------------------------------------------------------------------------- fault injection inside a rule (C19: "k-th operation")
+class InjectedFault(Exception):
+    pass
+
+
+class BombArray(onp.ndarray):
+    """a cotangent that raises at the k-th NumPy operation applied to it (or to anything computed from it)"""
+    count = [0]
+
+    def __array_ufunc__(self, ufunc, method, *inputs, **kwargs):
+        BombArray.count[0] -= 1
+        if BombArray.count[0] <= 0:
+            raise InjectedFault("fault injected into the backward rule")
+        plain = tuple(onp.asarray(i).view(onp.ndarray) if isinstance(i, BombArray) else i for i in inputs)
+        if "out" in kwargs:
+            kwargs["out"] = tuple(onp.asarray(o_).view(onp.ndarray) if isinstance(o_, BombArray) else o_ for o_ in kwargs["out"])
+        res = getattr(ufunc, method)(*plain, **kwargs)
+        return res.view(BombArray) if isinstance(res, onp.ndarray) and type(res) is onp.ndarray else res
+
+
+def inject_faults(vjp, first_g, row0):
+    """apply the VJP function to a cotangent that raises at its 1st, 2nd, 3rd operation; afterwards the function must answer as before"""
+    if not isinstance(first_g, onp.ndarray):
+        return None
+    for k in (1, 2, 3):
+        BombArray.count[0] = k
+        try:
+            vjp(onp.array(first_g, copy=True).view(BombArray))
+        except Exception:     # noqa  (the injected fault, or whatever the engine makes of the foreign array type: both are faults)
+            pass
+    BombArray.count[0] = 10 ** 9
+    try:
+        again = realify(onp.conj(vjp(first_g)))
+        if again.shape != row0.shape or not onp.array_equal(again, row0, equal_nan=True):
+            return "after a fault injected into the backward rule the VJP function answers differently"
+    except Exception as ex:     # noqa
+        return "after a fault injected into the backward rule the VJP function raises %s" % type(ex).__name__
+    return None
+
+
+FAULTS = "--faults" in sys.argv[3:]
+
+
 # ----------------------------------------------------------------------------- one observation
 def observe(cfg):
     obs = {"id": cfg["id"], "cfg": cfg, "status": "ok"}
@@ -253,6 +296,10 @@ def observe(cfg):
                     v["late"] = "re-applying the first cotangent after %d calls gives a different result" % ncall
             except Exception as ex:     # noqa
                 v["late"] = "re-applying the first cotangent raised %s" % type(ex).__name__
+        if FAULTS and rows and not v.get("late"):
+            why = inject_faults(vjp, first_g, rows[0])
+            if why:
+                v["late"] = why
         if rows and not v.get("late") and not kink:
             # two applications of the function that receive THE SAME cotangent object (the rule of `+` hands its g to both operands):
             # F(x) = f(x) + f(x) has the VJP 2 vjp - unless a rule changes the cotangent it was handed in place
@@ -419,6 +466,22 @@ def observe(cfg):
             obs["second"] = second_order(f, xin, y0)
         except Exception as ex:     # noqa  a problem of the comparison code itself: not evaluated, counted
             obs["second"] = {"checked": False, "modes": {}, "nbad": 0, "sym_bad": 0, "num_bad": 0, "harness": type(ex).__name__ + ": " + str(ex)[:120]}
+    # the differential operators on the same configuration (C09: "the gradient of a real-valued loss of complex parameters ..."): rows of
+    # jacobian(f)(x), and grad / elementwise_grad where they apply, must be the rows conj(vjp(e_i)) observed above - complex input kept complex
+    obs["ops_bad"] = 0
+    try:
+        if RR is not None and cfg["kind"] != "rr" and isinstance(x, onp.ndarray) and not onp.iscomplexobj(y0) and 0 < m <= 6 and not kink:
+            from autograd import jacobian
+            Jop = onp.asarray(jacobian(f)(xin)).reshape((m,) + onp.shape(x))
+            got = onp.array([realify(onp.conj(Jop[i_])) for i_ in range(m)])       # row i of jacobian() is vjp(e_i); RR[i] = realify(conj(vjp(e_i)))
+            if got.shape != RR.shape or not onp.allclose(got, RR, rtol=1e-9, atol=1e-12, equal_nan=True) or (onp.iscomplexobj(x) and not onp.iscomplexobj(Jop)):
+                obs["ops_bad"] = 1
+            if m == 1 and not onp.ndim(y0):
+                gop = onp.asarray(grad(f)(xin))
+                if gop.shape != onp.shape(x) or not onp.allclose(realify(onp.conj(gop)), RR[0], rtol=1e-9, atol=1e-12, equal_nan=True) or (onp.iscomplexobj(x) and not onp.iscomplexobj(gop)):
+                    obs["ops_bad"] = 1
+    except Exception as ex:     # noqa
+        obs["ops_skip"] = type(ex).__name__ + ": " + str(ex)[:80]
     # ambient NumPy state after the calls (C19: no call may leave the floating-point error modes changed, even if a rule raised)
     obs["npstate"] = ",".join("%s=%s" % kv for kv in sorted(onp.geterr().items()))
     return obs
